@@ -316,6 +316,9 @@ def describe(res, case, algo):
         res.dist["hgt=inf"] += 1
     if c["sloss"] == 0:
         res.dist["sloss=0"] += 1
+    if case.get("root") is not None:
+        fams = {f for _, l in _leaves(case["O"]) for f in l.get("f", [])}
+        res.dist["prescribed root" + (" (strict supersequence)" if set(case["root"]) - fams else "")] += 1
 
 
 # ---------------------------------------------------------------------------
